@@ -385,7 +385,8 @@ class VNet:
         # client side
         if r:
             if not any(s.readable() for s in r):
-                if self.cli_pump:
+                # a poll (timeout 0) does not wait: nothing more arrives while it looks
+                if self.cli_pump and (timeout is None or timeout > 0):
                     while not any(s.readable() for s in r):
                         if not self.cli_pump():
                             break
